@@ -1,20 +1,20 @@
 // ---------------------------------------------------------------------------------------------
 // Response-level vocabulary (C11): protocol status codes and error texts.
 // ---------------------------------------------------------------------------------------------
-pub open spec fn error_text(e: CacheError) -> Seq<char> {
+pub open spec fn error_str(e: CacheError) -> &'static str {
     match e {
-        CacheError::NotFound => "Not found"@,
-        CacheError::KeyExists => "Key exists"@,
-        CacheError::ValueTooLarge => "Value too big"@,
-        CacheError::InvalidArguments => "Invalid arguments"@,
-        CacheError::ItemNotStored => "Item not stored"@,
-        CacheError::ArithOnNonNumeric => "Incr/Decr on non numeric value"@,
-        CacheError::UnkownCommand => "Invalid command"@,
-        CacheError::OutOfMemory => "Out of memory"@,
-        CacheError::NotSupported => "Not supported"@,
-        CacheError::InternalError => "Internal error"@,
-        CacheError::Busy => "Busy"@,
-        CacheError::TemporaryFailure => "Temporary failure"@,
+        CacheError::NotFound => "Not found",
+        CacheError::KeyExists => "Key exists",
+        CacheError::ValueTooLarge => "Value too big",
+        CacheError::InvalidArguments => "Invalid arguments",
+        CacheError::ItemNotStored => "Item not stored",
+        CacheError::ArithOnNonNumeric => "Incr/Decr on non numeric value",
+        CacheError::UnkownCommand => "Invalid command",
+        CacheError::OutOfMemory => "Out of memory",
+        CacheError::NotSupported => "Not supported",
+        CacheError::InternalError => "Internal error",
+        CacheError::Busy => "Busy",
+        CacheError::TemporaryFailure => "Temporary failure",
     }
 }
 // protocol status of an error (binary protocol table)
@@ -32,5 +32,28 @@ pub open spec fn error_code(e: CacheError) -> u16 {
         CacheError::InternalError => 0x84,
         CacheError::Busy => 0x85,
         CacheError::TemporaryFailure => 0x86,
+    }
+}
+
+// the message as the bytes the encoder puts on the wire
+pub open spec fn error_text(e: CacheError) -> Seq<u8> { error_str(e).spec_bytes() }
+
+// every message of the table is short ASCII, so its length fits the u32 body_length field (C11)
+pub proof fn lemma_error_text_short(e: CacheError) // @ob C11 lemma.error_text_short
+    ensures error_str(e).is_ascii(), error_text(e).len() == error_str(e)@.len(), error_text(e).len() <= 30,
+{
+    match e {
+        CacheError::NotFound => { reveal_strlit("Not found"); assert("Not found".is_ascii()); },
+        CacheError::KeyExists => { reveal_strlit("Key exists"); assert("Key exists".is_ascii()); },
+        CacheError::ValueTooLarge => { reveal_strlit("Value too big"); assert("Value too big".is_ascii()); },
+        CacheError::InvalidArguments => { reveal_strlit("Invalid arguments"); assert("Invalid arguments".is_ascii()); },
+        CacheError::ItemNotStored => { reveal_strlit("Item not stored"); assert("Item not stored".is_ascii()); },
+        CacheError::ArithOnNonNumeric => { reveal_strlit("Incr/Decr on non numeric value"); assert("Incr/Decr on non numeric value".is_ascii()); },
+        CacheError::UnkownCommand => { reveal_strlit("Invalid command"); assert("Invalid command".is_ascii()); },
+        CacheError::OutOfMemory => { reveal_strlit("Out of memory"); assert("Out of memory".is_ascii()); },
+        CacheError::NotSupported => { reveal_strlit("Not supported"); assert("Not supported".is_ascii()); },
+        CacheError::InternalError => { reveal_strlit("Internal error"); assert("Internal error".is_ascii()); },
+        CacheError::Busy => { reveal_strlit("Busy"); assert("Busy".is_ascii()); },
+        CacheError::TemporaryFailure => { reveal_strlit("Temporary failure"); assert("Temporary failure".is_ascii()); },
     }
 }
